@@ -157,7 +157,8 @@ class FastParse:
             if text not in self.cache or self.n % self.real_every == 0:
                 self.real += 1
                 tree = self.orig(text)
-                self.cache.setdefault(text, tree)
+                if text not in self.cache:
+                    self.cache[text] = copy.deepcopy(tree)      # kept pristine: the caller's object gets executed
                 return tree
             return copy.deepcopy(self.cache[text])
         parser.parse = parse
@@ -291,7 +292,7 @@ def is_reexec_defect(obs, st, op, objs_used_before, k_in_many):
 
 def replay_history(ctx, sess, hist, hid, rng):
     """-> True if every call agreed with the specification, the reference execution and left the data alone"""
-    objs = {}
+    objs = {s: st.fresh() for s, st in enumerate(sess.stmts)}      # parsed once, before the history starts
     executed = set()
     ok = True
     for k, h in enumerate(hist):
@@ -658,7 +659,6 @@ def c2s(ctx):
                 if s < nmod:
                     raw = sess.call(objs, op, s, ps)
                     res = bm.project(raw, st)
-                    res.pop('msg', None)
                 else:
                     text, plist = lobjs[s - nmod]
                     cur = sess.cursor
@@ -706,8 +706,8 @@ def c2s(ctx):
             ctx.violation('c2s:fold', 'folded and per-row values differ', case, 'C2S', ev['perrow'], ev['folded'])
         elif not ev.get('same', True):
             ctx.violation('c2s:data-mutated:%s' % ev['op'], 'source data changed by the call', case, 'C2S')
-        elif not ev['res']['ok'] and ev['res'].get('exc') == 'ProgrammingError' and ev['s'] <= nmod \
-                and sess.stmts[ev['s'] - 1].nph >= 2 and 'hash' not in ev['res']:
+        elif not ev['res']['ok'] and ev['res'].get('exc') == 'ProgrammingError' and 'cannot be mixed' in ev['res'].get('msg', '') \
+                and sum(1 for _, nm in placeholders(tstmts[ev['s'] - 1]['q']) if nm == '') >= 2:
             ctx.violation(KEY_REEXEC, 'a matching call fails', case, 'C2S', rj['spec'], ev['res'])
         else:
             what = 'exception:%s' % ev['res'].get('exc') if not ev['res']['ok'] else ('not-a-function-of-text-params-data' if 'hash' in ev['res'] else 'result')
@@ -736,11 +736,12 @@ def run(ctx):
         if res.violated:
             ctx.violation('spec:' + ','.join(res.violated), 'TLC violates history independence on the conforming mechanism',
                           {'kind': 'mc', 'behaviour': res.behaviour[:3000]}, 'MC')
-        res = ctx.tlc('MC_BQLSession', 'MC_BQLSession_shipped.cfg', leg='MC-nonvacuity', expect_violation='ResultInv', workers=2)
+        res = ctx.tlc('MC_BQLSession', 'MC_BQLSession_shipped.cfg', leg='MC-nonvacuity', expect_violation='ResultInv', workers=1)
         if res.behaviour.count('<Execute(') != 2 or '<Parse(' not in res.behaviour or res.behaviour.count('<Number') != 2 \
                 or '<Bind' not in res.behaviour or '<Run' not in res.behaviour:
             raise MachineryError('the shipped-mechanism counterexample is not Parse; Execute (Number; Bind; Run); Execute (Number)')
-        res = ctx.tlc('MC_BQLSession', 'MC_BQLSession_shipped_many.cfg', leg='MC-nonvacuity', expect_violation='ResultInv', workers=2)
+        res = ctx.tlc('MC_BQLSession', 'MC_BQLSession_shipped_many.cfg', leg='MC-nonvacuity', expect_violation='ResultInv',
+                      workers=1)     # one worker: breadth-first search reports the shortest counterexample, the executemany one
         if '<ExecuteMany(' not in res.behaviour:
             raise MachineryError('the executemany counterexample on the shipped mechanism was not found')
         res = ctx.tlc('MC_BQLSession', 'MC_BQLSession_fold.cfg', leg='MC-fold', workers=1)
